@@ -103,6 +103,10 @@ def tlc(workdir, module, cfg, workers=1, timeout=1800, xmx="4g", extra=(), deque
         cmd = ["java", "-XX:+UseSerialGC", "-XX:TieredStopAtLevel=1", "-Xmx" + xmx, "-Xss512m"]
     else:
         cmd = ["java", "-XX:+UseParallelGC", "-XX:ParallelGCThreads=4", "-Xmx" + xmx, "-Xss512m"]
+    # TLC leaves a tlc-<n> directory in java.io.tmpdir per run: keep them inside the scratch directory that is removed afterwards
+    jtmp = os.path.join(workdir, "jtmp")
+    os.makedirs(jtmp, exist_ok=True)
+    cmd.append("-Djava.io.tmpdir=" + jtmp)
     if deque:
         cmd.append("-Dtlc2.tool.queue.IStateQueue=StateDeque")
     # -seed: TLC's RandomSubset (sampled case sets of M_TOK) must be reproducible; VERIF_SEED varies it
